@@ -22,6 +22,8 @@ def cases(rng, tier):
     n = 30 if tier == "quick" else 800
     out = [dict(seed=4000 + i, n=120, profile="drops") for i in range(4)]
     out += mc.connection_corpus()
+    # one long outage, on the real ClientService as the client constructs it: it must keep trying
+    out.append(dict(kind="outage", failures=3000 if tier == "quick" else 20000))
     for _ in range(n):
         out.append(dict(seed=rng.randrange(10**9), n=rng.choice([60, 120, 200]), profile=rng.choice(["drops", "drops", "late-peer", "allocate", "input"])))
     m = 50 if tier == "quick" else 1500
@@ -150,7 +152,19 @@ EXTRA_TARGETS = ["wvsearch"]
 evidence_extra = mc.cert_stats
 
 
+def run_outage(case):
+    from ..worlds.mailbox import long_outage
+    stuck, attempts, errors = long_outage(case["failures"])
+    viol = []
+    if stuck is not None:
+        viol.append(("reconnect-abandoned", f"after one good connection and {stuck} refused attempts in a row the client's "
+                     f"ClientService has no further attempt scheduled: it will never reach the server again ({errors[:1]})"))
+    return Result([], [], viol, ["outage"], True, info=dict(trace=["outage", stuck, min(attempts, case["failures"])]))
+
+
 def run_case(case):
+    if case.get("kind") == "outage":
+        return run_outage(case)
     if case.get("kind") == "trace":
         return mc.run_trace_case(case, trace_oracle)
     if case.get("kind") == "pair":
@@ -181,6 +195,12 @@ def run_case(case):
 
 
 def shrink(case):
+    if case.get("kind") == "outage":
+        f = case["failures"]
+        for g in (f // 2, f - 1):
+            if 0 < g < f:
+                yield dict(case, failures=g)
+        return
     if case.get("kind") == "trace":
         yield from mc.trace_shrink(case)
         return
@@ -202,6 +222,8 @@ def shrink(case):
 def search(rng, seconds, seeds):
     t0 = time.time()
     yield from mc.model_guided(trace_oracle)
+    c = dict(kind="outage", failures=20000)
+    yield c, run_case(c)
     for c in seeds:
         yield c, run_case(c)
     while time.time() - t0 < seconds:
